@@ -113,7 +113,8 @@ def run_case(sim, check, seed, i, K, n_crash):
         ks = sorted({rng.randint(1, max(1, nm)) for _ in range(n_crash)}) if nm else []
         clean = tw.tree_files(results[0]["tree"])
         for k in ks:
-            rc = sim.run(tw.oneshot_spec(files, cwd, crash_at=k), mapseed=mapseeds[0])
+            tear = rng.choice(TEARS)
+            rc = sim.run(tw.oneshot_spec(files, cwd, crash_at=k, crash_tear=tear), mapseed=mapseeds[0])
             stats["runs"] += 1
             if rc.get("status") != "crashed":
                 continue
@@ -121,6 +122,8 @@ def run_case(sim, check, seed, i, K, n_crash):
             torn = [p for p, c in tw.tree_files(rc["tree"]).items() if p in clean and c != clean[p]]
             if torn:
                 stats["crash_left_torn_file"] = stats.get("crash_left_torn_file", 0) + 1
+                if any(len(tw.tree_files(rc["tree"])[p]) == len(clean[p]) for p in torn):
+                    stats["crash_left_same_size_torn_file"] = stats.get("crash_left_same_size_torn_file", 0) + 1
             after = dict(files)
             after.update(tw.tree_files(rc["tree"]))
             r3 = sim.run(tw.oneshot_spec(after, cwd), mapseed=mapseeds[0])
@@ -128,10 +131,60 @@ def run_case(sim, check, seed, i, K, n_crash):
             got = tw.tree_files(r3["tree"]) if r3.get("tree") else {}
             badp = [p for p in clean if got.get(p) != clean[p]]
             if badp or r3.get("exit_code") != 0:
-                viols.append(({"class": "crash_rerun_differs", "where": badp[0].replace("/w/", "") if badp else "exit"},
-                              {"mode": "crash", "files": files, "cwd": cwd, "crash_at": k, "mapseeds": [mapseeds[0]], "seed": seed, "case": desc}))
+                viols.append(({"class": "crash_rerun_differs", "where": badp[0].replace("/w/", "") if badp else "exit", "tear": tear},
+                              {"mode": "crash", "files": files, "cwd": cwd, "crash_at": k, "crash_tear": tear, "mapseeds": [mapseeds[0]], "seed": seed, "case": desc}))
+                break
+        # dirty start: the model is edited (often without changing any length: int32 -> int64) and generated again
+        # over the first run's output; every file of a clean run of the edited package must have exactly its bytes
+        for j in range(2):
+            files2, what = token_edit(files, M.derive(seed, "dirty", i, j))
+            if files2 is None:
+                break
+            c2 = sim.run(tw.oneshot_spec(files2, cwd), mapseed=mapseeds[0])
+            stats["runs"] += 1
+            if c2.get("status") != "returned" or c2.get("exit_code") != 0:
+                continue
+            clean2 = tw.tree_files(c2["tree"])
+            start = dict(tw.tree_files(results[0]["tree"]))
+            start.update(files2)
+            d2 = sim.run(tw.oneshot_spec(start, cwd, links=links, dirs=tw.tree_dirs(results[0]["tree"])), mapseed=mapseeds[0])
+            stats["runs"] += 1
+            stats["dirty_starts"] = stats.get("dirty_starts", 0) + 1
+            got = tw.tree_files(d2["tree"]) if d2.get("tree") else {}
+            stale = [p for p in clean2 if p in clean and clean[p] != clean2[p]]
+            if any(len(clean[p]) == len(clean2[p]) for p in stale):
+                stats["dirty_same_size_stale_file"] = stats.get("dirty_same_size_stale_file", 0) + 1
+            badp = [p for p in sorted(clean2) if got.get(p) != clean2[p]]
+            if badp or d2.get("exit_code") != 0:
+                viols.append(({"class": "dirty_start_differs", "where": badp[0].replace("/w/", "") if badp else "exit"},
+                              {"mode": "dirty", "files": files, "files2": files2, "edit": what, "cwd": cwd, "mapseeds": [mapseeds[0]], "seed": seed, "case": desc}))
                 break
     return stats, viols
+
+
+TEARS = ["", "short", "zerotail", "zerotail"]
+SAME_LEN = [["int16", "int32", "int64", "uint8"], ["uint16", "uint32", "uint64"], ["float32", "float64"], ["complexfloat32", "complexfloat64"]]
+
+
+def token_edit(files, rng):
+    """One primitive type name in a model file of the main package replaced by another one, of the same
+    length three times out of four.  (None, None) if the package has no such token."""
+    import re
+    alts = {t: [u for u in grp if u != t] for grp in SAME_LEN for t in grp}
+    every = sorted(alts) + ["string", "bool"]
+    pat = re.compile(r"(?<![A-Za-z0-9_])(%s)(?![A-Za-z0-9_])" % "|".join(sorted(alts, key=len, reverse=True)))
+    sites = []
+    for p in sorted(files):
+        if not p.startswith("/w/pkg/") or p.endswith("_package.yml") or not p.endswith(".yml"):
+            continue
+        sites += [(p, m.start(), m.group(1)) for m in pat.finditer(files[p])]
+    if not sites:
+        return None, None
+    p, at, tok = rng.choice(sites)
+    new = rng.choice(alts[tok]) if rng.chance(0.75) else rng.choice([t for t in every if t != tok])
+    out = dict(files)
+    out[p] = files[p][:at] + new + files[p][at + len(tok):]
+    return out, {"file": p, "offset": at, "from": tok, "to": new}
 
 
 def replay(sim, doc):
@@ -152,12 +205,24 @@ def replay(sim, doc):
     if mode == "crash":
         r1 = sim.run(tw.oneshot_spec(files, cwd), mapseed=ms[0])
         clean = tw.tree_files(r1["tree"])
-        rc = sim.run(tw.oneshot_spec(files, cwd, crash_at=doc["crash_at"]), mapseed=ms[0])
+        rc = sim.run(tw.oneshot_spec(files, cwd, crash_at=doc["crash_at"], crash_tear=doc.get("crash_tear", "")), mapseed=ms[0])
         after = dict(files); after.update(tw.tree_files(rc["tree"]))
         r3 = sim.run(tw.oneshot_spec(after, cwd), mapseed=ms[0])
         got = tw.tree_files(r3["tree"])
         badp = [p for p in clean if got.get(p) != clean[p]]
         return bool(badp), str(badp[:3])
+    if mode == "dirty":
+        r1 = sim.run(tw.oneshot_spec(files, cwd), mapseed=ms[0])
+        c2 = sim.run(tw.oneshot_spec(doc["files2"], cwd), mapseed=ms[0])
+        if c2.get("exit_code") != 0 or r1.get("exit_code") != 0:
+            return False, "a package of the pair is no longer accepted"
+        clean2 = tw.tree_files(c2["tree"])
+        start = dict(tw.tree_files(r1["tree"])); start.update(doc["files2"])
+        links = {p: e["t"] for p, e in r1["tree"].items() if e["k"] == "l"}
+        d2 = sim.run(tw.oneshot_spec(start, cwd, links=links, dirs=tw.tree_dirs(r1["tree"])), mapseed=ms[0])
+        got = tw.tree_files(d2["tree"])
+        badp = [p for p in sorted(clean2) if got.get(p) != clean2[p]]
+        return bool(badp) or d2.get("exit_code") != 0, str(badp[:3])
     raise ValueError(mode)
 
 
@@ -206,7 +271,8 @@ def main():
     budget = check.budget(75, 1500)
     max_cases = 70 if quick else 100000
     totals = {"runs": 0, "accepted": 0, "rejected_with_diagnostics": 0, "with_versions": 0, "invalid": 0,
-              "crash_points": 0, "crash_left_torn_file": 0, "warnings_seen": 0}
+              "crash_points": 0, "crash_left_torn_file": 0, "crash_left_same_size_torn_file": 0, "warnings_seen": 0,
+              "dirty_starts": 0, "dirty_same_size_stale_file": 0}
     i = 0
     batch = 32
     while i < max_cases and check.elapsed() < budget:
@@ -221,7 +287,8 @@ def main():
             totals["with_versions"] += 1 if d.get("versions") else 0
             totals["invalid"] += 1 if d["kind"] == "invalid" else 0
             totals["crash_points"] += stats.get("crash_points", 0)
-            totals["crash_left_torn_file"] += stats.get("crash_left_torn_file", 0)
+            for key in ("crash_left_torn_file", "crash_left_same_size_torn_file", "dirty_starts", "dirty_same_size_stale_file"):
+                totals[key] += stats.get(key, 0)
             check.note_case(("pkg", d["pkg_seed"], d["kind"], d.get("versions", 0)), nontrivial=stats["n_mut"] > 0 or stats["has_diag"])
             check.sample({"case": d, "executions": stats["runs"], "disk_mutations_first_run": stats["n_mut"], "accepted": stats["accepted"]})
             for rec, doc in viols:
@@ -233,11 +300,14 @@ def main():
     wall = check.elapsed()
     check.coverage["rule"] = ("one case = one generated package (plain / with previous versions / with 1-4 injected errors) executed K=%d times in "
                               "fresh simulator processes that differ only in VERIF_MAPSEED, plus 2 reruns on the populated disk and up to %d "
-                              "crash-at-k-th-mutation + rerun executions; non-trivial = the run wrote files or printed diagnostics; distinct = by package seed" % (K, n_crash))
+                              "crash-at-k-th-mutation (in-flight write complete / cut short / full length with zeroed tail) + rerun executions, and up to 2 "
+                              "dirty starts (one primitive type name of the model replaced, mostly by one of equal length, and generated over the first run's output); non-trivial = the run wrote files or printed diagnostics; distinct = by package seed" % (K, n_crash))
     check.extra["simulation"] = {
         "simulated_runs": totals["runs"], "runs_per_hour": int(totals["runs"] / max(wall, 1e-9) * 3600),
         "totals": totals, "map_seeds_per_package": K,
-        "fault_kinds": {"process_crash_at_disk_mutation": totals["crash_points"], "torn_output_file_left_by_crash": totals["crash_left_torn_file"]},
+        "fault_kinds": {"process_crash_at_disk_mutation": totals["crash_points"], "torn_output_file_left_by_crash": totals["crash_left_torn_file"],
+                        "torn_file_of_full_length_with_zeroed_tail": totals["crash_left_same_size_torn_file"],
+                        "stale_output_of_an_edited_model_present": totals["dirty_starts"], "stale_file_of_equal_size": totals["dirty_same_size_stale_file"]},
         "real_code": "all of tooling/** (cobra command, packaging, dsl, cpp/python/matlab/json generators), koanf, yaml, zerolog — compiled from the working tree",
         "stubbed": "os, path/filepath, os/exec, sync.Mutex, fsnotify (simulated OS); runtime.rand/bootstrapRand seeded via overlay",
         "simulator_build_s": round(sim.build_s, 1),
